@@ -9,7 +9,7 @@ import (
 )
 
 // var rxIsNumberArray = regexp.MustCompile(`^\[([0-9]+)..([0-9]+)\]$`)
-var rxIsNumberArray = regexp.MustCompile(`^\[([0-9]+..[0-9]+|[0-9]+|,)+\]$`)
+var rxIsNumberArray = regexp.MustCompile(`^\[([0-9]+\.\.[0-9]+|[0-9]+|,)+\]$`)
 
 func (a *arrayT) isNumberArray() (bool, error) {
 	var err error
